@@ -31,6 +31,8 @@ def vector(values, name=None, promoted=None):
     if not promoted or len(kinds) != 1 or next(iter(kinds)) not in _START or isinstance(fresh, S.Table):
         return fresh
     start = _START[next(iter(kinds))]
+    if next(iter(kinds)) is complex and len(values) % 4 >= 2:
+        start = 0.0           # complex reached from a float vector (the other half: from an int vector)
     try:
         v = S.Vector([start] * len(values), name=name) if name is not None else S.Vector([start] * len(values))
         for i, x in enumerate(values):
